@@ -468,6 +468,13 @@ impl Ctx {
     /// later killed by the watchdog, and tell it which case was running.
     fn emit_stats(&mut self, kind: &str, with_hashes: bool) {
         let sets: BTreeMap<String, usize> = self.sets.iter().map(|(k, v)| (k.clone(), v.len())).collect();
+        // what the hooks inside the library saw while this shard ran (totals; the library's parallel kernels are
+        // reached by many monitors through homology / reduction / Khovanov computations)
+        let h = crate::trace::hook_totals();
+        for (k, v) in [("hook_events/parallel_pivot_commits", h[0]), ("hook_events/parallel_pivot_commits_on_stale_snapshot", h[1]), ("hook_events/pivot_retries", h[2]),
+                       ("hook_events/solver_columns_started", h[3]), ("hook_events/union_find_pair_visits", h[4])] {
+            if v > 0 { self.counters.insert(k.to_string(), v as i64); }
+        }
         let mut hashes: Vec<String> = if with_hashes { self.nt_hashes.iter().take(400_000).map(|h| format!("{:x}", h)).collect() } else { vec![] };
         hashes.sort();
         let line = json!({
